@@ -265,6 +265,15 @@ class RGB(tuple):
         return "RGB(r=%r, g=%r, b=%r)" % tuple(self)
 
 
+class Token(str):
+    """a str subclass whose str() is NOT its value (what `class Token(str, Enum)` members are): still a string with that value"""
+    def __str__(self):
+        return "Token.BRAND"
+
+    def __repr__(self):
+        return "<Token.BRAND: %s>" % str.__repr__(self)
+
+
 class ColourList(list):
     """a list subclass: still a list"""
 
@@ -292,6 +301,13 @@ def spell(c, kind, rnd):
         return (r, g, b)
     if kind == "list":
         return [r, g, b]
+    if kind == "rgbfnsub":
+        return Token(f"rgb({r}, {g}, {b})")
+    if kind == "hslfnsub":
+        return Token("hsl(%d, %d%%, %d%%)" % _rgb_to_hsl_int(c))
+    if kind == "rgba3fn":
+        # rgba() WITHOUT its optional alpha component: still an rgba() string
+        return rnd.choice([f"rgba({r}, {g}, {b})", f"RGBA({r} {g} {b})", f"rgba({r},{g},{b})"])
     if kind == "tuplesub":
         return RGB(r, g, b)
     if kind == "listsub":
@@ -329,7 +345,7 @@ def _rgb_to_hsl_int(c):
 
 
 SPELLS = ["hex6", "hex3", "hexnohash", "hexupper", "rgbfn", "rgbpct", "hslfn", "named", "tuple", "list", "rgbafn",
-          "hslafn", "rgbatuple", "tuplesub", "listsub", "hslodd"]
+          "hslafn", "rgbatuple", "tuplesub", "listsub", "hslodd", "rgbfnsub", "hslfnsub", "rgba3fn"]
 
 
 def rand_colour(rnd):
